@@ -32,7 +32,7 @@ struct Ev {
 };
 inline std::vector<Ev>* g_events = nullptr;
 inline void event_sink(int ev, const void* obj, std::uint64_t /*a*/, std::uint64_t /*b*/) {
-    if (g_events == nullptr) { return; }
+    if (g_events == nullptr || ev >= verif::EV_LOCK_ACQ) { return; }
     int th = sched::tl_self != nullptr ? sched::tl_self->id : -1;
     g_events->push_back(Ev{sched::Scheduler::get().now(), ev, obj, th});
 }
